@@ -204,4 +204,32 @@ CLAIMS = {
              "across turns for arbitrary devices is not decided.",
         technique="who-may-write; CFG must-pass through super() chains; def-use discovery of player-bound attributes; freshness of stored values",
         ref="4/C11"),
+    "C15": dict(
+        text="Static analysis of structural necessary conditions of data persistence: FileManager.save resets is_busy on "
+             "every exit including exceptional ones; it writes through the interface to a sibling temp file and renames "
+             "(temp, filename) only on the path where the write returned normally; the YAML writer closes the file and "
+             "uses a dumper object of its own per write; the writer thread clears the dirty flag, then deep-copies the "
+             "live data, then writes that copy, never clears after the write in the same round, waits while another "
+             "manager writes, and a failing write is caught inside the loop; after the loop a flush guarded only by the "
+             "dirty flag writes the live data; save_all stores before it marks dirty; the persisted machine-variable "
+             "record contains every key the loader reads, only persistent variables are written, expired or malformed "
+             "records are skipped; FileManager.save is called only by the writer thread. Known finding F6b: nothing waits "
+             "for the daemon writer thread at shutdown. Crash points (no fsync reasoning) and value equality after reload "
+             "are not decided.",
+        technique="CFG pairing on normal and exceptional paths; order/dominance; dead-guard check; record-key table agreement",
+        ref="4/C15"),
+    "C16": dict(
+        text="Static analysis of structural necessary conditions of template evaluation: every entry of OPERATORS and "
+             "COMPARISONS maps its ast operator class to the operator-module function that invokes the same special "
+             "method as Python's syntax (oracle: CPython evaluating the checker's own probe expressions), boolean operators "
+             "are Python `and`/`or` lambdas, every node type of the supported grammar dispatches to its own evaluator, "
+             "operands are applied (left, right), conditional expressions pick body/else by the test; every evaluator "
+             "returns a (value, subscription list) pair on every path; the subscription list of every sub-evaluation that "
+             "dominates a result or a TemplateEvalError is contained in it (directly or through an accumulator), attribute "
+             "and name access add their own subscription, a failed evaluation still subscribes to everything it read; the "
+             "events placeholders wait for have the prefix the owners post (player_, machine_var_) and exist in the game; "
+             "the config-player subscription loop re-evaluates, re-subscribes with the same binding and ends only on "
+             "cancellation or shutdown. Semantic equivalence over all expressions and freshness over all histories are not decided.",
+        technique="table oracle against CPython operator semantics; evaluator contract; def-use flow of subscription lists on the CFG",
+        ref="4/C16"),
 }
